@@ -133,7 +133,7 @@ pub fn c15_installed_position_is_counted() {
 /// on the insertion that makes the third occurrence, `get` reports the running count
 #[kani::proof]
 #[kani::unwind(8)]
-pub fn c15_threefold_flags_exactly_the_third_occurrence() {
+pub fn c15_threefold_flags_exactly_the_third_occurrence_t() {
     let a = Board::standard();
     let mut pa = a.verif_parts();
     pa.turn = chess_bitboard::Color::Black;
